@@ -265,6 +265,9 @@ static void harmonics(unsigned long long& unit)
 	for(int i = 1; i <= 8; i++)
 		for(int j = 0; j < 16; j++) dirs.push_back({M_PI * i / 9.0, 2 * M_PI * j / 16.0 + 0.05});
 	for(double th : {1e-3, M_PI - 1e-3, 1e-6}) dirs.push_back({th, 2.2});
+	// next to the poles, where cos(theta) rounds to +-1 although sin(theta) does not vanish
+	for(double th : {1e-7, 3e-8, 1e-8, 5e-9, 1e-9, 1e-12, 1e-100, M_PI - 1e-7, M_PI - 1.2e-8, M_PI - 1e-9})
+		for(double ph : {0.4, 2.2, 5.0}) dirs.push_back({th, ph});
 	if(mc::shard0()) mc::alphabet("directions", dirs.size());
 	// Unsoeld's theorem: sum_m |Y_lm|^2 = (2l+1)/(4 pi) in every direction (fixes the normalisation of the scalar harmonics)
 	if(mc::mine(unit++))
